@@ -39,6 +39,9 @@ func c15Profiles(tier string) []Profile {
 						Letter{"Asc(all)", func(w *harness.World) { w.Visit("x", harness.APIAscend, []byte{}, true, -1) }},
 						Letter{"DescEx(stop0)", func(w *harness.World) { w.Visit("x", harness.APIDescendEx, bs("zz"), false, 0) }},
 						Letter{"Iter(stop0)", func(w *harness.World) { w.Visit("x", harness.APIIterAscend, []byte{}, true, 0) }},
+						Letter{"Len", func(w *harness.World) { w.LenOp("x") }},
+						Letter{"BlockEx", func(w *harness.World) { w.BlockVisit("x", true) }},
+						Letter{"Random", func(w *harness.World) { w.RandomVisit("x") }},
 						Letter{"RemoveColl(x)", func(w *harness.World) { w.RemoveCollection("x") }})
 				}
 				ls = append(ls,
@@ -48,7 +51,7 @@ func c15Profiles(tier string) []Profile {
 			}
 			return append(ls, snapLetters(w, 1, false)...)
 		}}
-	return []Profile{p.Profile(fmt.Sprintf("every history of length <= %d over Set/Delete/Evict, GetItem (both value modes), Exist, MinItem, ascending visit, descending Ex visit with early stop, iterator with early close, RemoveCollection, SetCollection (new/existing), Flush, Reopen, Snapshot / read / close of a snapshot, then closing snapshots and store in both orders; counting ItemAlloc/ItemAddRef/ItemDecRef callbacks: no count below zero, every item handed to a visitor or the caller and every cached item reachable from an open handle has a positive count, and after closing everything all counts are zero", d))}
+	return []Profile{p.Profile(fmt.Sprintf("every history of length <= %d over Set/Delete/Evict, GetItem (both value modes), Exist, MinItem, ascending visit, descending Ex visit with early stop, iterator with early close, Len, block and random visits, RemoveCollection, SetCollection (new/existing), Flush, Reopen, Snapshot / read / close of a snapshot, then closing snapshots and store in both orders; counting ItemAlloc/ItemAddRef/ItemDecRef callbacks: no count below zero, every item handed to a visitor or the caller and every cached item reachable from an open handle has a positive count, and after closing everything all counts are zero; an item whose count reaches zero is scrubbed (key and value overwritten) and any later reference to it is reported, so a use after release shows as a wrong result", d))}
 }
 
 func init() {
